@@ -294,9 +294,39 @@ def evaluate(ref, ts, fs, df, dt, lo, hi, opts):
         P = ref.path(tt)
     if hi <= lo:
         return value, bound, dict(Tt=Tt, P=P, n=n)
+    # ---- rounding of the TIME argument. With a time axis starting near 0 this is nothing; for a frame injected at a cadence
+    # offset of 10^4 s one ulp of t is 2e-12 s, and every operation on t (offset + i*dt, t + phase, 2 pi t / period, t - pulse centre)
+    # rounds at that magnitude -- for a profile or path that varies on a scale of dt = 10 ms that is 1e-9 relative, more than the
+    # generic slack below. First-order envelopes for 16 ulp of the largest time: finite differences of the reference closed forms;
+    # analytic slopes where the reference is a same-seed twin of a seeded library object (it cannot be evaluated twice).
+    t_eps = 16 * float(np.spacing(max(float(np.max(np.abs(t_ext))), float(dt))))
+    envT = np.zeros(T)
+    if tform == 'callable':
+        st_ = spec['tprof']
+        if ref.tprof_twin is None:
+            if opts.get('integrate_t_profile'):
+                gridt = (ts[:, None] + np.arange(St)[None, :] * dt / St).ravel()
+                base_t = ref.tprof(gridt)
+                envT = np.maximum(np.abs(ref.tprof(gridt + t_eps) - base_t), np.abs(ref.tprof(gridt - t_eps) - base_t)).reshape(T, St).mean(axis=1)
+            else:
+                envT = np.maximum(np.abs(ref.tprof(ts + t_eps) - Tt), np.abs(ref.tprof(ts - t_eps) - Tt))
+        else:
+            wdt = float(st_.get('pulse_width', dt))
+            envT = np.full(T, 2.0 * abs(float(st_.get('level', 1.0))) * max(1.0, abs(float(st_.get('amplitude', 1.0)))) * 1.5 / wdt * t_eps)
+    envP = np.zeros(Teff)
+    if pform == 'callable':
+        if ref.path_twin is None:
+            if opts.get('integrate_path'):
+                gridp = (tt[:, None] + np.arange(St)[None, :] * dt / St).ravel()
+                base_p = ref.path(gridp)
+                envP = np.maximum(np.abs(ref.path(gridp + t_eps) - base_p), np.abs(ref.path(gridp - t_eps) - base_p)).reshape(Teff, St).mean(axis=1)
+            else:
+                envP = np.maximum(np.abs(ref.path(tt + t_eps) - P), np.abs(ref.path(tt - t_eps) - P))
+        else:
+            envP = np.full(Teff, abs(float(spec['path'].get('drift', 0.0))) * t_eps)
     cols = np.arange(lo, hi)
     fmax_abs = max(abs(fs[0]), abs(fs[-1]), float(np.max(np.abs(P))))
-    eps = (8 + 2 * n) * np.spacing(fmax_abs)
+    eps = (8 + 2 * n) * np.spacing(fmax_abs) + float(np.max(envP))
     grid = fs[cols][:, None] + np.arange(Sf)[None, :] * df / Sf         # (C, Sf)
     B = ref.bp(grid)
     envB = np.maximum(np.abs(ref.bp(grid + eps) - B), np.abs(ref.bp(grid - eps) - B))
@@ -314,6 +344,7 @@ def evaluate(ref, ts, fs, df, dt, lo, hi, opts):
         accenv += envF * np.abs(B)[None] + np.abs(Fv) * envB[None]
     val = (Tt[:, None, None] * acc * B[None] / n).mean(axis=2)
     bnd = 2 * (np.abs(Tt)[:, None, None] * accenv / n).mean(axis=2)
+    bnd = bnd + 2 * (envT[:, None, None] * np.abs(acc * B[None]) / n).mean(axis=2)
     peak = float(np.max(np.abs(val))) if val.size else 0.0
     bnd = bnd + 1e-12 * peak + 1e-10 * np.abs(val) + 1e-290
     value[:, lo:hi] = val
